@@ -77,3 +77,12 @@ Theorem C09_accepted_text_is_reflected : forall d m exts modular,
   dsl_to_model d = DOk m exts modular ->
   exists f, wf_file f /\ distinct_decls f /\ m = sem_file f /\ ttext (header_tok (f_header f)) <> [].
 Proof. exact accepted_is_sem. Qed.
+
+(* CHARACTERS INCLUDED, for canonical documents (model header, type blocks, relation lines; plain names): if such a document
+   declares the same relation twice in a type — or otherwise fails [distinct_decls] — the pre-pass, the lexer model, the
+   parser model and the listener model, run on its text, return no model *)
+From Verif Require Import Spec.DocDomain Model.Lexer Proofs.LexRender Proofs.DocLex Proofs.DocParse Proofs.DocChars Proofs.DocReject.
+Theorem C09_canonical_document_with_a_duplicate_is_rejected : forall v ts,
+  std_version v = true -> Forall type_lex_ok ts -> Forall type_ok ts -> ~ distinct_decls (doc_file v ts) ->
+  forall m exts md, dsl_to_model (text_of (ctoks_doc v ts) ++ [10]) <> DOk m exts md.
+Proof. exact canonical_document_with_a_duplicate_is_rejected. Qed.
